@@ -139,10 +139,16 @@ static const char *const qsym[] = {
 #define NVCBLOCK 2
 #define NSCALE 2
 
+/* descriptor alphabet: every string of up to 4 (thorough 5) of these */
+static const char *const dsym[] = {
+    "a", ".", "[", "]", "0", "1", "+", "=", "#", "{", "}", "\\"
+};
+#define NDSYM 12
+
 static int nops(int tier)
 {
     (void)tier;
-    return NMOD + NQSYM + NVCBLOCK + NSCALE;
+    return NMOD + NQSYM + NVCBLOCK + NSCALE + NDSYM;
 }
 static int maxdepth(int tier) { return tier ? 5 : 4; }
 
@@ -162,9 +168,12 @@ static void op_name(int tier, int op, char *buf, size_t n)
 	snprintf(buf, n, "quote_key-block(first=%s)", pm_show(qsym[op - NMOD]));
     } else if (op < NMOD + NQSYM + NVCBLOCK) {
 	snprintf(buf, n, "vnacal_property-block(%d)", op - NMOD - NQSYM);
-    } else {
+    } else if (op < NMOD + NQSYM + NVCBLOCK + NSCALE) {
 	snprintf(buf, n, "scale-block(%s)", op - NMOD - NQSYM - NVCBLOCK ?
 		"map" : "list");
+    } else {
+	snprintf(buf, n, "descriptor-block(first=%s)",
+		pm_show(dsym[op - NMOD - NQSYM - NVCBLOCK - NSCALE]));
     }
 }
 
@@ -204,9 +213,17 @@ static const char *ename(int e)
     return b[k];
 }
 
-/* is errno e within the allowed set? */
+/*
+ * is errno e within the allowed set?  In the descriptor enumeration any of
+ * the two documented values is accepted for a call the reference refuses:
+ * which of "malformed" and "not found" the library notices first on a
+ * descriptor that is both is not documented.
+ */
+static int g_errno_loose;
 static int err_ok(int e, int set)
 {
+    if (g_errno_loose && set != 0 && (e == EINVAL || e == ENOENT))
+	return 1;
     return (e == EINVAL && (set & PM_EINVAL)) ||
 	   (e == ENOENT && (set & PM_ENOENT));
 }
@@ -1022,6 +1039,147 @@ static void put_key(vf_result *r, pm_node *mroot)
     pm_buf_free(&b);
 }
 
+/* ------------------------------------------------------------------ */
+/* descriptor enumeration                                              */
+/* ------------------------------------------------------------------ */
+
+/* the fixed tree the descriptors are applied to */
+static const char *const desc_base[] = {
+    "a.a=1", "a.0=z", "[0]#", "a.b[1]=x", "\\1=one",
+};
+#define NDBASE ((int)(sizeof(desc_base) / sizeof(desc_base[0])))
+
+static int desc_build(vf_result *r, vnaproperty_t **root, pm_node **mroot)
+{
+    *root = NULL;
+    *mroot = NULL;
+    /* "[0]#" on a map root fails by design: the base is built from what
+       both sides accept, in lock-step */
+    for (int i = 0; i < NDBASE; ++i) {
+	int merr, loose;
+	pm_node *before = pm_clone(*mroot);
+	int mrv = pm_set(mroot, desc_base[i], &merr, &loose);
+	int rv = vnaproperty_set(root, "%s", desc_base[i]);
+	if ((mrv == 0) != (rv == 0) || loose) {
+	    if (!loose) {
+		vf_fail(r, "desc:base", "base tree: set('%s') returned %d, "
+			"reference %d", desc_base[i], rv, mrv);
+		pm_free(before);
+		return -1;
+	    }
+	}
+	if (mrv != 0) {
+	    pm_free(*mroot);
+	    *mroot = before;
+	} else {
+	    pm_free(before);
+	}
+    }
+    return 0;
+}
+
+/*
+ * run_desc_block: every descriptor that starts with dsym[first] and has up
+ * to three (thorough: four) more symbols, on a fixed tree: the five
+ * non-modifying entry points against the reference reading of the
+ * descriptor, then set, delete and set_subtree on a fresh tree each with
+ * the resulting tree compared, and the live-block count after each
+ * descriptor compared with the one before it.
+ */
+static void run_desc_block(int first, int tier, vf_result *r)
+{
+    unsigned long mark = vf_exec_begin();
+    const int maxlen = tier ? 5 : 4;
+    vnaproperty_t *root = NULL;
+    pm_node *mroot = NULL;
+    pm_buf got = { 0 }, want = { 0 };
+    char why[900], d[16], arg[24];
+    long ndesc = 0;
+
+    r->nontrivial = 1;
+    vf_desc(r, "every descriptor '%s' + up to %d more symbols of the "
+	    "%d-symbol descriptor alphabet: type, count, keys, get, "
+	    "get_subtree, set, delete, set_subtree against the reference "
+	    "reading; live blocks after each", pm_show(dsym[first]),
+	    maxlen - 1, NDSYM);
+    if (desc_build(r, &root, &mroot) != 0)
+	goto out;
+    g_errno_loose = 1;
+    for (int len = 1; len <= maxlen && r->status == VF_OK; ++len) {
+	long total = 1;
+	for (int i = 1; i < len; ++i)
+	    total *= NDSYM;
+	for (long k = 0; k < total && r->status == VF_OK; ++k) {
+	    long kk = k;
+	    long live0;
+	    strcpy(d, dsym[first]);
+	    for (int i = 1; i < len; ++i) {
+		strcat(d, dsym[kk % NDSYM]);
+		kk /= NDSYM;
+	    }
+	    ++ndesc;
+	    live0 = vf_live_total();
+	    observe(r, root, &mroot, d, &got, &want);
+	    if (r->status != VF_OK)
+		break;
+	    for (int kind = 0; kind < 3 && r->status == VF_OK; ++kind) {
+		vnaproperty_t *root2 = NULL;
+		pm_node *mroot2 = NULL;
+		step_t st = { 0, NULL, 0 };
+		op_t o = { kind == 0 ? K_SET : kind == 1 ? K_DEL : K_SUB,
+		    arg, NULL };
+		if (kind == 0)
+		    snprintf(arg, sizeof(arg), "%s=v", d);
+		else
+		    snprintf(arg, sizeof(arg), "%s", d);
+		if (desc_build(r, &root2, &mroot2) != 0)
+		    break;
+		apply_op(r, &o, &root2, &mroot2, &st, 1);
+		if (r->status == VF_OK) {
+		    if (same_tree(root2, mroot2, &got, &want, why,
+				sizeof(why)) != 0) {
+			int ok = 0;
+			if (st.loose && st.before != NULL) {
+			    pm_free(mroot2);
+			    mroot2 = st.before;
+			    st.before = NULL;
+			    ok = same_tree(root2, mroot2, &got, &want, why,
+				    sizeof(why)) == 0;
+			}
+			if (!ok)
+			    vf_fail(r, kind == 0 ? "state:after-set" :
+				    kind == 1 ? "state:after-delete" :
+				    "state:after-set_subtree", "descriptor "
+				    "'%s' on the fixed tree: %s", pm_show(arg),
+				    why);
+		    }
+		}
+		(void)vnaproperty_delete(&root2, ".");
+		pm_free(mroot2);
+		pm_free(st.before);
+	    }
+	    if (r->status == VF_OK && vf_live_total() != live0)
+		vf_fail(r, "leak:descriptor", "%ld block(s) stay allocated "
+			"after descriptor '%s' went through the eight entry "
+			"points and every tree was deleted",
+			vf_live_total() - live0, pm_show(d));
+	}
+    }
+    if (r->status == VF_OK &&
+	    same_tree(root, mroot, &got, &want, why, sizeof(why)) != 0)
+	vf_fail(r, "state:after-observers", "non-modifying calls changed the "
+		"fixed tree: %s", why);
+    r->states = ndesc;
+    vf_outcome(r, "descriptor block ok");
+out:
+    g_errno_loose = 0;
+    (void)vnaproperty_delete(&root, ".");
+    pm_free(mroot);
+    pm_buf_free(&got);
+    pm_buf_free(&want);
+    vf_exec_end(r, mark);
+}
+
 static void run_hist(int tier, const int *ops, int n, vf_result *r)
 {
     vnaproperty_t *root = NULL;
@@ -1047,8 +1205,11 @@ static void run_hist(int tier, const int *ops, int n, vf_result *r)
 		run_quote_block(ops[0] - NMOD, r);
 	    else if (ops[0] < NMOD + NQSYM + NVCBLOCK)
 		run_vnacal_block(ops[0] - NMOD - NQSYM, r);
-	    else
+	    else if (ops[0] < NMOD + NQSYM + NVCBLOCK + NSCALE)
 		run_scale_block(ops[0] - NMOD - NQSYM - NVCBLOCK, r);
+	    else
+		run_desc_block(ops[0] - NMOD - NQSYM - NVCBLOCK - NSCALE,
+			tier, r);
 	    return;
 	}
     }
